@@ -81,8 +81,8 @@ add("break-without-exit-info", F, "C07", "dfols/solver.py",
     "                exit_info = ExitInformation(EXIT_SUCCESS, \"All points within noise level\")\n                nruns_so_far += 1\n                break  # quit",
     "                nruns_so_far += 1\n                break  # quit", "C07-9")
 add("message-stem-missing", F, "C07", "dfols/controller.py", "        elif self.flag == EXIT_EVAL_ERROR:\n            return \"Error (function evaluation): \" + self.msg\n", "", "no-stem")
-add("evaluation-before-validation", F, "C07", "dfols/solver.py", "    exit_info = None\n    # Check the shapes first",
-    "    _r0 = objfun(x0, *argsf)\n    exit_info = None\n    # Check the shapes first", "before-graceful-return")
+add("evaluation-before-validation", F, "C07", "dfols/solver.py", "    exit_info = None\n    if bounds is not None and len(bounds) != 2:",
+    "    _r0 = objfun(x0, *argsf)\n    exit_info = None\n    if bounds is not None and len(bounds) != 2:", "before-graceful-return")
 
 add("save-point-nan-holder", F, ["C08", "C17"], "dfols/model.py", "if self.objsave is None or np.isnan(self.objsave) or obj <= self.objsave:", "if self.objsave is None or obj <= self.objsave:", "NAN_HOLDER")
 add("argmin-not-nan-aware", F, "C08", "dfols/model.py", "self.kopt = np.nanargmin(objvals)", "self.kopt = np.argmin(objvals)", "C08-1c")
